@@ -4,6 +4,10 @@
                               of the common domain (divisor != 0 for the native engine).  The VM half of the agreement is
                               C02.vm.<OP> (harness/vm_step_h.c h_c02): the handler pushes the value of the SAME spec function.
                               native == spec  and  VM == spec  =>  native == VM, per operator.          (.corner / .value8: see c02_native.py)
+    C01.agree.streq / strne   string == / != : the emitted function (with the emitted helpers it calls) is true iff the two NUL-terminated
+                              strings have the same length and bytes; B(strings of length <= 4, arbitrary bytes).  VM half: OP_STR_EQ (C13.step).
+    C01.agree.<op>f           float operators: the emitted C applies the same C double operation to (a, b) in that order (bit patterns);
+                              addf/subf and the six comparisons U, mulf/divf: .corner U + .frac8/.frac4 B (see c02_native.py).
     C01.agree.acc.<accessor>  the generated accessor hands the user's array / index / value unmodified to the runtime accessor and
                               returns its result (the native half of "same element or same stop"; the runtime's own bounds
                               behaviour is C08.nat.*, the VM half C08.vm.ARR_*).
